@@ -5,6 +5,7 @@ from common import coq_bool, coq_options, coq_string
 import obs
 
 ID = "C11"
+ENV_RERUN = 40          # cases repeated from a cargo build-script environment (lib/runner.py with_build_env)
 REQUIRES = ["Agree", "C11Spec"]
 THEOREM_REQUIRES = ["C11"]
 THEOREMS = ["C11_holds_bool", "C11_success_iff", "C11_success_content", "C11_duplicate_iff",
